@@ -246,12 +246,6 @@ def getinputmode (ctx : Ctx) (data : Bytes) : Mode :=
      || (ctx.pollShort.contains (slice data 2 4) && data.length ≤ ctx.pollMaxLen)
   then .poll else .set
 
-/-- Python slice with possibly negative bounds -/
-def pySlice (p : Bytes) (a b : Int) : Bytes :=
-  let n : Int := p.length
-  let norm (x : Int) : Nat := (if x < 0 then (if x + n < 0 then 0 else x + n) else if x > n then n else x).toNat
-  slice p (norm a) (norm b)
-
 /-- the payload `parse` hands to the constructor: `None` when the length field is `00 00` -/
 def parsePayload (message : Bytes) : Option Bytes :=
   if slice message 4 6 = [0, 0] then none else some (pySlice message 6 ((message.length : Int) - 2))
